@@ -1,7 +1,7 @@
 (* C20 — table obligations: facts about the source as extracted into Tables.v on this run, each
    discharged by closed computation.  When the source changes shape exactly the lemma naming that
    shape stops checking. *)
-From G20 Require Import Model.
+From G20 Require Import Model Proofs.
 Open Scope Z_scope.
 
 (* ratelimit/ratelimit.go *)
@@ -48,3 +48,26 @@ Proof. vm_compute. split; reflexivity. Qed.
 Lemma ob_flag_fields :
   flag_read_limit_field = b "ReadLimit" /\ flag_write_limit_field = b "WriteLimit".
 Proof. vm_compute. split; reflexivity. Qed.
+
+(* ------------------------------------------------------------------ non-vacuity *)
+Definition ex_es : list ev :=
+  [mkEv 1 Tx 4194304 0 0; mkEv 2 Tx 32768 10 20; mkEv 1 Tx 32768 31250020 31250030].
+Lemma example_ok :
+  let l := new_limiter 1048576 in
+  run_lim l ex_es = [0; 31250000; 62500000] /\
+  sequential (combine ex_es (run_lim l ex_es)) /\
+  (forall x, In x ex_es -> 0 < e_n x <= 4194304 /\ e_io x <= e_t x /\ In (e_conn x) [1%N; 2%N]) /\
+  moved 0 100000000 ex_es = 4259840.
+Proof.
+  cbn zeta. assert (run_lim (new_limiter 1048576) ex_es = [0; 31250000; 62500000]) as E by (vm_compute; reflexivity).
+  split; [exact E|]. split; [|split].
+  - rewrite E. unfold ex_es. cbn [combine sequential].
+    repeat match goal with
+           | |- _ /\ _ => split
+           | |- Forall _ [] => apply Forall_nil
+           | |- Forall _ (_ :: _) => apply Forall_cons
+           | |- True => exact I
+           end; cbn [fst snd e_conn e_io]; intro H; try discriminate H; lia.
+  - intros x [<-|[<-|[<-|[]]]]; cbn; repeat split; try lia; auto.
+  - vm_compute. reflexivity.
+Qed.
